@@ -1,0 +1,33 @@
+//go:build verif
+// +build verif
+
+package isaacstates
+
+import "github.com/spikeekips/mitum/base"
+
+// Exported constructors of the handover messages for the verification harness (C27/C28).
+// Add-only; compiled only with the build tag "verif".
+
+func VerifNewHandoverMessageChallengeResponse(
+	id string, point base.StagePoint, ok bool, err error,
+) HandoverMessageChallengeResponse {
+	return newHandoverMessageChallengeResponse(id, point, ok, err)
+}
+
+func VerifNewHandoverMessageFinish(id string, vp base.INITVoteproof, pr base.ProposalSignFact) HandoverMessageFinish {
+	return newHandoverMessageFinish(id, vp, pr)
+}
+
+func VerifNewHandoverMessageChallengeStagePoint(id string, point base.StagePoint) HandoverMessageChallengeStagePoint {
+	return newHandoverMessageChallengeStagePoint(id, point)
+}
+
+func VerifNewHandoverMessageChallengeBlockMap(
+	id string, point base.StagePoint, m base.BlockMap,
+) HandoverMessageChallengeBlockMap {
+	return newHandoverMessageChallengeBlockMap(id, point, m)
+}
+
+func VerifNewHandoverMessageData(id string, dataType HandoverMessageDataType, i interface{}) HandoverMessageData {
+	return newHandoverMessageData(id, dataType, i)
+}
